@@ -1,6 +1,19 @@
-"""C01 — exchange slice; see driver/exch.py and Props/C01.v"""
+"""C01 — no look-ahead. Exchange part (driver/exch.py) + server part (driver/server.py)."""
 import exch
+import server
 
 
 def run(res, tier, seed, replay):
-    return exch.run_property(res, "C01", tier, seed, replay, ["C01"])
+    ob = exch.run_property(res, "C01", tier, seed, replay, ["C01"])
+    cov_ex = dict(res.coverage)
+    ob2 = server.run_property(res, "C01", tier, seed, replay, [])
+    cov_srv = dict(res.coverage)
+    res.coverage.update(
+        evaluations=cov_ex.get("evaluations", 0) + cov_srv.get("evaluations", 0),
+        distinct_nontrivial=cov_ex.get("distinct_nontrivial", 0) + cov_srv.get("distinct_nontrivial", 0),
+        rule="exchange part: " + cov_ex.get("rule", "") + " || server part: " + cov_srv.get("rule", ""),
+        samples=cov_ex.get("samples", []) + cov_srv.get("samples", []),
+        situations=(cov_ex.get("situations", []) + cov_srv.get("situations", []))[:500],
+        exchange_part={k: cov_ex.get(k) for k in ("evaluations", "distinct_nontrivial", "quirk_valuation_matched", "scenarios")},
+        server_part={k: cov_srv.get(k) for k in ("evaluations", "distinct_nontrivial", "quirk_valuation_matched", "scenarios")})
+    return ob
